@@ -415,7 +415,21 @@ def judge(world, obs, placement, stats):
         v = normal['c%d' % i]
         return v if v == MISSING else v[0][0]
 
-    strict_cycles = [c for c in cycles if G.all_strict(c)]
+    # a later IFS condition that IS evaluated (every earlier condition is
+    # determinately false) is as strict as any other operand
+    sel0 = Selection(world) if in_vocab else None
+
+    def strict_edge(u, v):
+        for o in G.edge[u][v]:
+            if o['conds'] or (o['multi'] and not o['agg']):
+                continue
+            if not o['weak'] or (sel0 is not None and sel0.occurrence(
+                    o['weak']) == 'selected'):
+                return True
+        return False
+
+    strict_cycles = [c for c in cycles
+                     if all(strict_edge(u, v) for u, v in G.cycle_edges(c))]
     on_strict = set()
     for c in strict_cycles:
         on_strict.update(c)
